@@ -366,6 +366,41 @@ def body_ftf_order(env):
               key='geometry_depends_on_ftf_list_order')
 
 
+def body_cell_arrays(env):
+    """The per-cell area arrays the step methods work with (set up from the per-type tables by the real constructor): every
+    cell carries the area of its own type in its own ring -- interior coolant, every wall, every bypass gap -- and each ring of
+    cells tiles its own annulus (walls and gaps have different thicknesses in the fixture).  Enumeration over ring and wall
+    counts; the per-type tables themselves are the subject of the geometry instances."""
+    n, nduct = env.params['n_ring'], env.params['n_duct']
+    r = fixtures.make_rodded(n, nduct, byp_ff=0.05 if nduct > 1 else None)
+    sc = r.subchannel
+    typ = np.asarray(sc.type, dtype=int)
+    nsc, nd = sc.n_sc['coolant']['total'], sc.n_sc['duct']['total']
+    ftf = np.sort(np.ravel(np.asarray(r.duct_ftf, dtype=float)))
+    hexa = lambda f: np.sqrt(3) / 2 * f * f      # noqa
+    ai = np.asarray(r.area['coolant_int'], dtype=float)
+    env.holds('interior coolant cells carry the area of their type',
+              bool(np.allclose(ai, np.asarray(r.params['area'], dtype=float)[typ[:nsc]], rtol=1e-13, atol=0)), key='cell_area_of_another_ring')
+    for w in range(nduct):
+        aw = np.asarray(r.area['duct_mw'][w], dtype=float)
+        env.holds('wall %d: cells tile the annulus of that wall' % w,
+                  abs(float(aw.sum()) - (hexa(ftf[2 * w + 1]) - hexa(ftf[2 * w]))) <= 1e-12 * hexa(ftf[2 * w + 1]), key='cell_area_of_another_ring')
+        env.holds('wall %d: total area is the sum of its cells' % w, abs(float(r.total_area['duct_mw'][w]) - float(aw.sum())) <= 1e-13 * float(aw.sum()),
+                  key='cell_area_of_another_ring')
+    for g in range(nduct - 1):
+        ab = np.asarray(r.area['coolant_byp'][g], dtype=float)
+        ann = hexa(ftf[2 * g + 2]) - hexa(ftf[2 * g + 1])
+        env.holds('bypass gap %d: cells tile the annulus of that gap' % g, abs(float(ab.sum()) - ann) <= 1e-12 * hexa(ftf[2 * g + 2]),
+                  key='cell_area_of_another_ring')
+        env.holds('bypass gap %d: total area is the sum of its cells' % g,
+                  abs(float(r.total_area['coolant_byp'][g]) - float(ab.sum())) <= 1e-13 * float(ab.sum()), key='cell_area_of_another_ring')
+        tb = typ[nsc + (2 * g + 1) * nd: nsc + (2 * g + 2) * nd]
+        env.holds('bypass gap %d: every cell carries the area of its type in that gap' % g,
+                  bool(np.allclose(ab, np.asarray(r.bypass_params['area'][g], dtype=float)[tb - 5], rtol=1e-13, atol=0)), key='cell_area_of_another_ring')
+    if nduct > 2:
+        env.holds('fixture: the bypass gaps have different areas', abs(float(np.sum(r.area['coolant_byp'][0])) - float(np.sum(r.area['coolant_byp'][1]))) > 1e-9)
+
+
 def instances(tier):
     inst = []
     rings = (2, 3, 4, 7) if tier == 'quick' else tuple(range(2, 21))
@@ -393,6 +428,10 @@ def instances(tier):
         for nduct, order in ((1, (1, 0)), (2, (2, 3, 0, 1)), (2, (3, 2, 1, 0)), (2, (0, 2, 1, 3)), (3, (4, 5, 2, 3, 0, 1)), (3, (5, 0, 3, 2, 1, 4))):
             inst.append(dict(label='ftf-order[rings=%d,ducts=%d,list order %s]' % (n, nduct, ''.join(map(str, order))), body=body_ftf_order,
                              params={'n_ring': n, 'n_duct': nduct, 'order': order}, check_vacuity=False))
+    for n in ((2, 3) if tier == 'quick' else (2, 3, 5, 8)):
+        for nduct in (1, 2, 3):
+            inst.append(dict(label='cell-arrays[rings=%d,ducts=%d]' % (n, nduct), body=body_cell_arrays, params={'n_ring': n, 'n_duct': nduct},
+                             check_vacuity=False))
     for n in (2, 5):
         inst.append(dict(label='heat-fractions[rings=%d]' % n, body=body_q_p2sc, params={'n_ring': n}, check_vacuity=False))
     return inst
